@@ -1,7 +1,8 @@
 #!/bin/bash
 # for each second-batch seed: run the property's quick check with the patch applied to /repo, record which obligations fail, keep the seed, remove the worktree
+BATCH=${BATCH:-seed}; SUFFIX=${SUFFIX:-batch2}
 for id in "$@"; do
-  wt=/tmp/seed/$id
+  wt=/tmp/$BATCH/$id
   out=$(/verif/tools/seedrun.sh $wt/SEED/patch.diff $id 2>&1)
   echo "=== $id"; echo "$out" | tail -6
   det=$(echo "$out" | /verif/.venv/bin/python -c "
@@ -9,5 +10,5 @@ import sys,json,re
 v=[l.split('replay=')[1].split()[0].rsplit('/',1)[-1].replace('.json','') for l in sys.stdin if l.startswith('VIOLATION')]
 print(json.dumps({'check':'./check $id (quick)','failed_obligations':v,'detected':bool(v)}))")
   name=$(python3 -c "import json;print(json.load(open('$wt/SEED/meta.json')).get('short_name',''))" 2>/dev/null)
-  /verif/.venv/bin/python /verif/tools/seed_keep.py $wt "$id-batch2" "$det" | tail -12
+  /verif/.venv/bin/python /verif/tools/seed_keep.py $wt "$id-$SUFFIX" "$det" | tail -12
 done
